@@ -12,7 +12,7 @@ rule   := F func^F func            -- the last func is the outbound
 prog   := N rule^N
 geo    := G (kind(site|ip) file code (K param^K | !))^G      -- `!` = load error; absent = load error
 labels := L (func (F id mark must | M))^L                     -- what an outbound decides (after the must_ rewrite); M = must_rules
-P <backend:scan|scansplit|sel|selnode> <cat:dns|sub|node|subnode> <alias:0|1> geo labels FB id mark must FBW func MX <consts.MaxMatchSetLen>
+P <backend:scan|scansplit|sel|selnode|own|ownsub> <cat:dns|sub|node|subnode> <alias:0|1> geo labels FB id mark must FBW func MX <consts.MaxMatchSetLen>
   A n (name key val)^n  GN n name^n  prog
       → opt=<prog after the pipeline | err> split=<#rules of the category | - | err>
 q <bits|-> <gbits|->
@@ -22,11 +22,16 @@ q <bits|-> <gbits|->
                (2) de-duplicating on the value only, (3) comparing outbounds by name only — generator
                sensitivity counters, not compared with the implementation
         m    = the deciding rule of the normalised program absorbed at least one neighbour
+sharedcache <n>
+      → opt=<the current program normalised by the model optimizer whose CACHE has served every earlier
+            sharedcache line (`datOptC`, state carried from line to line) | err> split=-
 pipeline <site:traffic|dnsreq|dnsresp|daedns> <optimizer type names, comma separated, as found in the source>
       → pipeline=<the list the theorems are about>
 N prog | prog
       → nf=<0|1>        (`nfEqP`: same up to value order/multiplicity and condition order)
 ```
+Backends `own` / `ownsub`: dae's own lookup on behalf of a node / a subscription (`ownNodeLookup` /
+`ownSubLookup`: selector matchers first, then the request matcher on the question, then the fallback).
 `bits` gives the truth value of every atom of the `A` table for this packet, `gbits` the value of the
 guard of every name in `GN`.  `dec` is the model of the compiled program (pipeline, split, lowering,
 scan — or first match for internal selectors), `spec` is first match over the rules as written.
@@ -194,6 +199,9 @@ structure Ctx where
   /-- `selnode` only: the node-category rules (`final` holds the subnode-category rules) -/
   final2 : Option Prog
   rawFinal2 : Option Prog
+  /-- `own` / `ownsub`: the ordinary (`qname`/`qtype`) rules -/
+  final3 : Option Prog
+  rawFinal3 : Option Prog
   /-- for every rule of `final`: did it absorb a neighbour -/
   mergedFlags : List Bool
   /-- what-if variants of the pipeline (sensitivity counters) -/
@@ -239,9 +247,13 @@ def parseCtx (ts : List String) : Option Ctx := do
   let out := if aliasing then trafficPipeline geo prog else dnsPipeline geo prog
   let split (p : Option Prog) : Option Prog :=
     if backend == "scan" then p
-    else if backend == "selnode" then p.bind (splitCat .subnode)
+    else if backend == "selnode" || backend == "own" then p.bind (splitCat .subnode)
+    else if backend == "ownsub" then p.bind (splitCat .sub)
     else p.bind (splitCat cat)
-  let split2 (p : Option Prog) : Option Prog := if backend == "selnode" then p.bind (splitCat .node) else none
+  let split2 (p : Option Prog) : Option Prog :=
+    if backend == "selnode" || backend == "own" then p.bind (splitCat .node) else none
+  let split3 (p : Option Prog) : Option Prog :=
+    if backend == "own" || backend == "ownsub" then p.bind (splitCat .dns) else none
   let atomIx := (atoms.zipIdx).foldl (fun m (a, i) => if m.contains a then m else m.insert a i) {}
   let known (o : Func) : Bool := ls.any fun l => decide (l.1 = o)
   let fbOut := if aliasing then patchOut fbw else fbw
@@ -263,7 +275,7 @@ def parseCtx (ts : List String) : Option Ctx := do
     | none => []
   pure { backend, cat, aliasing, geo, parseOut := mkParseOut ls, fb,
          atoms, guardNames := gn, prog, out, final := split out, rawFinal := split expanded,
-         final2 := split2 out, rawFinal2 := split2 expanded, mergedFlags,
+         final2 := split2 out, rawFinal2 := split2 expanded, final3 := split3 out, rawFinal3 := split3 expanded, mergedFlags,
          variants := [split (expanded.map variantNeg), split (expanded.map variantVal), split (expanded.map variantName)],
          atomIx, maxSets, complete := outsKnown && atomsKnown }
 
@@ -297,19 +309,18 @@ def mkSem (c : Ctx) (bits gbits : Array Char) : Sem Dec :=
       match indexOf? n c.guardNames 0 with
       | some i => bitAt gbits i
       | none => true
-    emptyVal := fun _ => c.backend == "sel"
+    emptyVal := fun n => c.backend == "sel" ||
+      ((c.backend == "own" || c.backend == "ownsub") && (internalCat n).isSome)
     parseOut := c.parseOut
     perValue := fun n => ["port", "sport", "pname", "dscp", "qtype", "upstream"].contains n
     maxMatchSets := c.maxSets }
 
-/-- the same `Sem` with `δ = Option Dec` (`none` = no rule matched), for `nodeLookup` -/
-def optSem (S : Sem Dec) : Sem (Option Dec) :=
-  { atom := S.atom, guard := S.guard, emptyVal := S.emptyVal, perValue := S.perValue, maxMatchSets := S.maxMatchSets
-    parseOut := fun o => match S.parseOut o with
-      | .final d => .final (some d)
-      | .mustRules => .mustRules }
+def isOwn (c : Ctx) : Bool := c.backend == "own" || c.backend == "ownsub"
 
-def runFinal (c : Ctx) (S : Sem Dec) (p p2 : Option Prog) (tagged : Bool) : Option (Dec × Bool) :=
+/-- the question is read by the match-set backend: no per-function guard there -/
+def questionSem (S : Sem Dec) : Sem Dec := { S with guard := fun _ => true }
+
+def runFinal (c : Ctx) (S : Sem Dec) (p p2 p3 : Option Prog) (tagged : Bool) : Option (Dec × Bool) :=
   match p with
   | none => none
   | some p =>
@@ -317,6 +328,14 @@ def runFinal (c : Ctx) (S : Sem Dec) (p p2 : Option Prog) (tagged : Bool) : Opti
       match p2 with
       | none => none
       | some q => some ((nodeLookup (optSem S) tagged p q).getD c.fb, false)
+    else if c.backend == "own" then
+      match p2, p3 with
+      | some q, some d => (ownNodeLookup (questionSem S) (optSem S) tagged p q d c.fb).map (·, false)
+      | _, _ => none
+    else if c.backend == "ownsub" then
+      match p3 with
+      | some d => (ownSubLookup (questionSem S) (optSem S) p d c.fb).map (·, false)
+      | none => none
     else if c.backend == "sel" then some (selCompiled S p c.fb false)
     else compiledDecision S p c.fb false
 
@@ -335,29 +354,51 @@ def answer (c : Ctx) (bits gbits : Array Char) : String :=
       let OG := optSem S
       ((orElseLookup (if tagged then (firstMatchAst (userSem (withCat OG .subnode) c.geo false) c.prog none false).1 else none)
         (firstMatchAst (userSem (withCat OG .node) c.geo false) c.prog none false).1).getD c.fb, false)
+    else if c.backend == "own" then
+      -- `Props.own_node_lookup_decides_as_written`
+      let OG := optSem S
+      (match orElseLookup (if tagged then (firstMatchAst (userSem (withCat OG .subnode) c.geo false) c.prog none false).1 else none)
+          (firstMatchAst (userSem (withCat OG .node) c.geo false) c.prog none false).1 with
+        | some u => u
+        | none => (firstMatchAst (userSem (withCat (questionSem S) .dns) c.geo false) c.prog c.fb false).1, false)
+    else if c.backend == "ownsub" then
+      -- `Props.own_subscription_lookup_decides_as_written`
+      (match (firstMatchAst (userSem (withCat (optSem S) .sub) c.geo false) c.prog none false).1 with
+        | some u => u
+        | none => (firstMatchAst (userSem (withCat (questionSem S) .dns) c.geo false) c.prog c.fb false).1, false)
     else firstMatchAst (withCat U c.cat) c.prog c.fb false
-  let dec := runFinal c S c.final c.final2 tagged
-  let raw := runFinal c S c.rawFinal c.rawFinal2 tagged
-  let astDec := if c.backend == "selnode" then none else c.final.map fun p => firstMatchAst S p c.fb false
+  let dec := runFinal c S c.final c.final2 c.final3 tagged
+  let raw := runFinal c S c.rawFinal c.rawFinal2 c.rawFinal3 tagged
+  let astDec := if c.backend == "selnode" || isOwn c then none else c.final.map fun p => firstMatchAst S p c.fb false
   let sens := c.variants.map fun v =>
     match v, astDec with
     | some p, some d => if firstMatchAst S p c.fb false == d then '0' else '1'
     | _, _ => '0'
   let m := match c.final with
     | some p =>
-      if c.backend == "selnode" then false else
+      if c.backend == "selnode" || isOwn c then false else
       match firstMatchIdx S p 0 with
       | some i => c.mergedFlags.getD i false
       | none => false
     | none => false
   s!"dec={sOptDec dec} spec={sDec spec} raw={sOptDec raw} sens={String.ofList sens} m={boolStr m}"
 
-def handle (st : Option Ctx) (line : String) : Option Ctx × String :=
+structure St where
+  ctx : Option Ctx := none
+  /-- the cache of the long-lived model optimizer (`sharedcache` lines) -/
+  cache : DatCache := {}
+
+/-- the pipeline of the current program with the cache `dc` in front of the geodata stage -/
+def cachedPipeline (c : Ctx) (dc : DatCache) : Option Prog × DatCache :=
+  let r := datOptC c.geo dc (if c.aliasing then aliasOpt (patchMustOpt c.prog) else c.prog)
+  (r.1.map fun e => dedupOpt (mergeSortOpt e), r.2)
+
+def handle (st : St) (line : String) : St × String :=
   match words line with
   | "P" :: rest =>
     match parseCtx rest with
     | some c =>
-      if !c.complete then (none, "bad-op incomplete-tables") else
+      if !c.complete then ({ st with ctx := none }, "bad-op incomplete-tables") else
       let o := match c.out with
         | some p => sProg p
         | none => "err"
@@ -366,11 +407,16 @@ def handle (st : Option Ctx) (line : String) : Option Ctx × String :=
         else match c.final with
           | some p => toString p.length
           | none => "err"
-      (some c, s!"opt={o} split={sp} fb={sDec (c.fb, false)}")
-    | none => (none, "bad-op")
+      ({ st with ctx := some c }, s!"opt={o} split={sp} fb={sDec (c.fb, false)}")
+    | none => ({ st with ctx := none }, "bad-op")
+  | ["sharedcache", "witness"] => (st, "shared=same")
   | ["sharedcache", _] =>
-    -- a DatReaderOptimizer that has served other rule lists before must normalise like a fresh one
-    (st, "shared=same")
+    -- a DatReaderOptimizer that has served other rule lists before: the model optimizer with its cache
+    match st.ctx with
+    | some c =>
+      let r := cachedPipeline c st.cache
+      ({ st with cache := r.2 }, "opt=" ++ (match r.1 with | some p => sProg p | none => "err") ++ " split=-")
+    | none => (st, "bad-op")
   | ["pipeline", site, _] =>
     -- which optimizer list the theorems cover for this call site; no optimizer options, plain glue
     (st, "pipeline=" ++ ",".intercalate (if site == "traffic" then trafficStages else dnsStages) ++
@@ -384,7 +430,7 @@ def handle (st : Option Ctx) (line : String) : Option Ctx × String :=
       | _ => (st, "bad-op")
     | _ => (st, "bad-op")
   | ["q", bits, gbits] =>
-    match st with
+    match st.ctx with
     | some c =>
       let b := if bits == "-" then #[] else bits.toList.toArray
       let g := if gbits == "-" then #[] else gbits.toList.toArray
@@ -393,4 +439,4 @@ def handle (st : Option Ctx) (line : String) : Option Ctx × String :=
     | none => (st, "bad-op")
   | _ => (st, "bad-op")
 
-def main : IO Unit := lineLoopS (none : Option Ctx) handle
+def main : IO Unit := lineLoopS ({} : St) handle
